@@ -354,6 +354,24 @@ pub fn run(tier: Tier) -> i32 {
         rep.absorb(acc);
         stats.add(&st);
     }
+    // moderate size: 40 distinct arguments in one rule, the same 40 again in a second rule, and a
+    // third rule mixing old and new ones; deterministic single history per failure-free run
+    {
+        let mut big: Vec<RE> = (0..40).map(|i| RE::Val(RV::Int(100 + i))).collect();
+        big.extend((0..10).map(|i| RE::Val(RV::Str(format!("s{i}")))));
+        let argv_big: Vec<RE> = big;
+        let n = argv_big.len();
+        let mut calls: Vec<(usize, usize)> = (0..n).map(|a| (0usize, a)).collect();
+        calls.extend((0..n).map(|a| (0usize, a)));
+        calls.extend((0..n).rev().map(|a| (a % 2, a)));
+        let case = Case { calls, split: vec![n, n, n] };
+        let mut acc = Acc::new();
+        let st = check_case(&case, &argv_big, 2, Some(0), &mut acc);
+        acc.count("wide_histories", 1);
+        rep.absorb(acc);
+        stats.add(&st);
+        n_cases += 1;
+    }
     rep.bound("histories", n_cases);
     rep.states = stats.nodes + n_cases;
     rep.transitions = stats.edges + n_cases;
